@@ -70,7 +70,7 @@ QDialog {
 """
 
 
-def translate(env, qml_text, type_name, workdir, no_dyn=False, hash_seed=1, incremental=True, prev_qml=None, wfault=None):
+def translate(env, qml_text, type_name, workdir, no_dyn=False, hash_seed=1, incremental=True, prev_qml=None, wfault=None, doc_first=False):
     """run the real binary on one document -> dict(exit, stderr, ui, header).
     The header is emitted the way a build system gets it: by the second of two invocations of one process over several
     sources, where an earlier-named source (a fixed companion) is already up to date on disk."""
@@ -88,8 +88,11 @@ def translate(env, qml_text, type_name, workdir, no_dyn=False, hash_seed=1, incr
         # first build: the companion alone (only the document's own file may not exist yet for discovery to be the same:
         # it is written above, so both runs see the same directory)
         kernel.run(env, workdir, argv + ["Companion0.qml"], hash_seed=hash_seed, dirent_seed=1, io_dir=os.path.join(workdir, "io"))
-        argv += ["Companion0.qml"]
+        if not doc_first:
+            argv += ["Companion0.qml"]
     argv.append(type_name + ".qml")
+    if incremental and doc_first:
+        argv.append("Companion0.qml")     # the document is named first, the (valid, up to date) companion last
     prev = None
     if prev_qml is not None:
         # the earlier version of the document is translated first; then the document replaces it and is translated
